@@ -435,6 +435,8 @@ func (dr *DialogueRunner) RestoreAt(snapshot *Snapshot) error {
 		}
 	}
 
+	dr.variableSnapshot = maps.Clone(snapshot.Variables)
+
 	dr.statementsToRun.Clear()
 	dr.statementsToRun.Push(&statementQueue{statements: node.Statements})
 	dr.currentNode = node.Title()
